@@ -541,6 +541,26 @@ func OutsideModel(p *Program) bool {
 			}
 		}
 	}
+	// values outside the node: two writers that change the value of the SAME existing item write the same value
+	// blob in place before either commit is decided (a failed writer's value can be what is read back; reported
+	// to the owners of C03/C19) -- not an item-level effect the model has
+	if !p.Store.InNode {
+		upd := map[int]int{}
+		for i := range p.Writers {
+			seen := map[int]bool{}
+			for _, op := range p.Writers[i].Ops {
+				if _, has := init[op.Key]; has && !seen[op.Key] && (op.Kind == "update" || op.Kind == "upsert" || op.Kind == "updkey") {
+					seen[op.Key] = true
+					upd[op.Key]++
+				}
+			}
+		}
+		for _, n := range upd {
+			if n >= 2 {
+				return true
+			}
+		}
+	}
 	// a removed item may sit in an inner node unless the store is certainly one leaf
 	if removes && len(p.Init)+adds > EffSlot(p) {
 		return true
